@@ -3,6 +3,7 @@ package main
 // Evaluation of contract expressions to SMT terms in a given program state.
 
 import (
+	"os"
 	"fmt"
 	"go/constant"
 	"go/types"
@@ -205,7 +206,51 @@ func (f *Frame) localByName(name string, env *Env) *Val {
 	if len(cs) != 1 {
 		cs = collect(false)
 	}
+	if len(cs) > 1 {
+		// a declaration is recorded with the zero constant before the initialising value is
+		var real []cand
+		for _, c := range cs {
+			if k, isC := c.x.(*ssa.Const); isC && k.Value == nil {
+				continue
+			}
+			real = append(real, c)
+		}
+		if len(real) == 1 {
+			cs = real
+		}
+	}
+	if len(cs) > 1 && env.loop != nil {
+		// several versions of the variable reach the loop (e.g. the value an earlier loop left behind):
+		// the current one is the version defined last, i.e. the one whose definition all others dominate
+		for _, c := range cs {
+			ci, ok := c.x.(ssa.Instruction)
+			if !ok || ci.Block() == nil || !ci.Block().Dominates(env.loop.header) {
+				continue
+			}
+			last := true
+			for _, d := range cs {
+				if d.x == c.x {
+					continue
+				}
+				di, ok := d.x.(ssa.Instruction)
+				if !ok || di.Block() == nil || !di.Block().Dominates(ci.Block()) || di.Block() == ci.Block() {
+					last = false
+				}
+			}
+			if last {
+				cs = []cand{c}
+				break
+			}
+		}
+	}
 	if len(cs) != 1 {
+		if os.Getenv("GOVC_DEBUG") != "" {
+			fmt.Fprintf(os.Stderr, "localByName %s: %d candidates in %s:", name, len(cs), f.fn)
+			for _, c := range cs {
+				fmt.Fprintf(os.Stderr, " %s=%s", c.x.Name(), c.x)
+			}
+			fmt.Fprintln(os.Stderr)
+		}
 		return nil
 	}
 	v := f.val(cs[0].x)
